@@ -187,6 +187,31 @@ fn reset_clock() {
     *T0.lock().unwrap() = Some(Instant::now());
     POINTS.lock().unwrap().clear();
 }
+/// a driver event in the same ordered log as the hook points (the life-cycle timeline)
+fn mark(name: &'static str) {
+    let t = now_ms();
+    POINTS.lock().unwrap().push((t, name));
+}
+/// the ordered log of background hook points and driver marks, and the configuration Lifecycle.tla needs
+fn life_timeline(ev: &mut Value, cfgv: &Value) {
+    let tl: Vec<Value> = POINTS.lock().unwrap().iter().map(|(t, n)| json!({"name": n, "ms": t})).collect();
+    let policy = match cfgv.get("merge").and_then(|m| m.get("policy")) {
+        Some(Value::String(s)) => s.clone(),
+        Some(Value::Object(_)) => "window".to_string(),
+        _ => "never".to_string(),
+    };
+    let sync = cfgv.get("sync").map(|s| s.is_object()).unwrap_or(false);
+    ev["life"] = json!(tl);
+    ev["life_cfg"] = json!({"policy": policy, "sync": sync});
+}
+/// drop the store, wait for its worker, record the timeline
+fn end_life(kv: Bitcask, ev: &mut Value, cfgv: &Value) {
+    mark("drv.drop");
+    drop(kv);
+    mark("drv.dropped");
+    wait_until(|| bg_threads() == 0, Duration::from_secs(2));
+    life_timeline(ev, cfgv);
+}
 fn points(name: &str) -> Vec<u64> {
     POINTS.lock().unwrap().iter().filter(|p| p.1 == name).map(|p| p.0).collect()
 }
@@ -358,6 +383,9 @@ fn close_mode(inputs: &[Value], si: usize, sn: usize, out: &mut TraceOut, pend: 
         let kind = inp["kind"].as_str().unwrap_or("idle").to_string();
         let sc = Scratch::new("life");
         let dir = sc.path().to_path_buf();
+        // no worker of an earlier scenario (or of its reopen probe) may still be around: its hook points
+        // would land in this scenario's log
+        wait_until(|| bg_threads() == 0, Duration::from_secs(5));
         reset_clock();
         disarm();
         let mut ev = json!({"ev": "close", "kind": kind, "input": inp});
@@ -401,7 +429,11 @@ fn close_mode(inputs: &[Value], si: usize, sn: usize, out: &mut TraceOut, pend: 
                 let before_drop = snapshot(&dir);
                 // the drop; a thread parked inside the store may keep locks, so drop from a helper thread
                 let t_drop = Instant::now();
-                let dropper = std::thread::spawn(move || drop(kv));
+                mark("drv.drop");
+                let dropper = std::thread::spawn(move || {
+                    drop(kv);
+                    mark("drv.dropped");
+                });
                 if kind == "writer-busy" {
                     std::thread::sleep(Duration::from_millis(120));
                 } else {
@@ -421,6 +453,7 @@ fn close_mode(inputs: &[Value], si: usize, sn: usize, out: &mut TraceOut, pend: 
                 let gone = wait_until(|| bg_threads() <= base_bg, Duration::from_secs(3));
                 ev["bg_gone_ms"] = json!(gone.map(|x| x as i64).unwrap_or(-1));
                 let _ = t_drop;
+                life_timeline(&mut ev, &cfgv);
                 let calls_until_gone = shim::take_calls();
                 let dirsnap = snapshot(&dir);
                 ev["changed_between_drop_and_worker_exit"] = json!(dirsnap != before_drop);
@@ -506,6 +539,7 @@ fn bg_mode(inputs: &[Value], si: usize, sn: usize, out: &mut TraceOut, pend: &Pe
         pend.set(&json!({"ev": "bg", "input": inp, "phase": "run"}));
         let sc = Scratch::new("bg");
         let dir = sc.path().to_path_buf();
+        wait_until(|| bg_threads() == 0, Duration::from_secs(5));
         reset_clock();
         disarm();
         let interval = inp["interval_ms"].as_u64().unwrap_or(200);
@@ -546,7 +580,7 @@ fn bg_mode(inputs: &[Value], si: usize, sn: usize, out: &mut TraceOut, pend: &Pe
             ev["actives"] = json!([]);
             ev["interval_ms"] = json!(interval);
             ev["observed_ms"] = json!(now_ms());
-            drop(kv);
+            end_life(kv, &mut ev, &cfg);
             shim::stop();
         } else if pattern == "sync" {
             // interval sync: which file is fsynced when, across rotations of the active file
@@ -578,7 +612,7 @@ fn bg_mode(inputs: &[Value], si: usize, sn: usize, out: &mut TraceOut, pend: &Pe
             ev["actives"] = json!(actives);
             ev["interval_ms"] = json!(interval);
             ev["observed_ms"] = json!(now_ms());
-            drop(kv);
+            end_life(kv, &mut ev, &cfg);
             shim::stop();
         } else {
             // trigger 0.5 fragmentation / 300 dead bytes; inclusion thresholds deliberately lower
@@ -656,7 +690,7 @@ fn bg_mode(inputs: &[Value], si: usize, sn: usize, out: &mut TraceOut, pend: &Pe
             ev["jitter_ms"] = json!((interval as f64 * jitter) as u64);
             ev["hint_files"] = json!(list_files(&dir, "hint").len());
             ev["observed_ms"] = json!(now_ms());
-            drop(kv);
+            end_life(kv, &mut ev, &cfg);
             if pattern == "frag-fault" {
                 shim::stop();
             }
